@@ -42,7 +42,14 @@ def make_field(fam, periodic, variant=0):
     else:
         g = CylindricalSymGrid(8, [0, 24], [16, 48], periodic_z=periodic)
         ds = [DiffuseDroplet([0.0, 0.0, 6.0 + s], 3, 1.0), DiffuseDroplet([0.0, 0.0, 17.0], 4, 1.0)]
-    return Emulsion(ds).get_phasefield(g), len(ds)
+    field = Emulsion(ds).get_phasefield(g)
+    n = len(ds)
+    # a tiny cluster (one bright cell) far from the droplets: every result, however small, has the requested class
+    tiny = {"cart1": (15,), "cart2": (20, 2), "cart3": (1, 1, 10), "cylindrical": (0, 45)}.get(fam)
+    if tiny is not None and variant != 1:
+        field.data[tiny] = 1.0
+        n += 1
+    return field, n
 
 
 DIM = {"cart1": 1, "cart2": 2, "cart3": 3, "polar": 2, "spherical": 3, "cylindrical": 3}
@@ -81,7 +88,7 @@ def run_request(rec, variant=0):
         modes = d.modes if hasattr(d, "modes") else 0
         if modes != rec["namps"] or (rec["namps"] > 0 and len(d.amplitudes) != rec["namps"]):
             fails.append(f"{modes} amplitudes, requested {rec['namps']}")
-        if rec["cls"] != "SphericalDroplet":
+        if rec["cls"] != "SphericalDroplet" and hasattr(d, "interface_width"):
             w = d.interface_width
             if rec["width"] == "given" and w != GIVEN_WIDTH:
                 fails.append(f"supplied width not carried: {w}")
@@ -108,7 +115,10 @@ def _chunk(items):
     core.setup_repo_import()
     bad = []
     for idx, rec in items:
-        fails = run_request(rec, idx % 3)
+        try:
+            fails = run_request(rec, idx % 3)
+        except Exception as exc:  # noqa: BLE001
+            fails = [f"inspection of the result raised {type(exc).__name__}: {exc}"]
         if fails:
             bad.append({"index": idx, **rec, "fails": sorted(set(fails))})
     return len(items), bad
